@@ -282,11 +282,8 @@ class History(Scenario):
             try:
                 fn(m, ctx, i)
                 raised = None
-            except (NameError, KeyError) as e:
+            except Exception as e:  # noqa: BLE001  any exception is a rejection; the property does not fix its type
                 raised = e
-            except Exception as e:  # noqa: BLE001
-                raised = e
-                ctx.true(f"step {i} {label}: rejected with NameError/KeyError, not {type(e).__name__}", False, info=str(e)[:120])
             if raised is not None:
                 ctx.true(f"step {i} {label}: a rejected edit changes nothing", same_snapshot(before, snapshot(m)), info=f"{type(raised).__name__}: {raised}"[:150])
             ok, exp = ids_consistent(m)
